@@ -101,7 +101,32 @@ def run_case(case):
     check('pushheader(*args)', lambda: etl.pushheader(t, 'x', 'y'), case['pushheader'])
     check('rename', lambda: etl.rename(t, 'a', 'q'), case['rename'])
     check('rename(dict)', lambda: etl.rename(t, {'a': 'q'}), case['rename'])
-    if len(set(case['hdr'])) == len(case['hdr']):      # conversions address fields by name: distinct names
+    # conversions address a field by NAME: with duplicate names the first field of that name is the one converted
+    if 'a' in case['hdr']:
+        check('convert(a)', lambda: etl.convert(t, 'a', lambda v: v + 1000), case['convert'])
+        check('update-like convert(a, dict arg)', lambda: etl.convert(t, {'a': lambda v: v + 1000}), case['convert'])
+    for c in case['addfield9']:
+        def counter9():
+            k = itertools.count(1)
+            return lambda rec: 500 + next(k)
+        check('addfield(index=%r, missing)' % idx(c['index']), lambda: etl.addfield(t, 'z', counter9(), index=idx(c['index']), missing=M9), c['out'])
+    if len(set(case['hdr'])) == len(case['hdr']):      # dict-like accessors need distinct names
+        for lab, kw, key in (('', {}, 'squared'), ('(missing)', {'missing': M9}, 'squared9')):
+            want = [dict(zip(case['hdr'], [cv(c) for c in r])) for r in case[key]]
+            try:
+                got = [dict(d) for d in etl.dicts(t, **kw)]
+                if got != want:
+                    problems.append('dicts%s delivered %r, spec %r' % (lab, got, want))
+                # a Record is the row itself (a long row keeps its surplus cells); its FIELD access pads with missing
+                got = [tuple(rec[f] for f in case['hdr']) for rec in etl.records(t, **kw)]
+                if got != [tuple(cv(c) for c in r) for r in case[key]]:
+                    problems.append('records%s field access delivered %r, spec %r' % (lab, got, case[key]))
+                got = [tuple(r) for r in etl.namedtuples(t, **kw)]
+                if got != [tuple(cv(c) for c in r) for r in case[key]]:
+                    problems.append('namedtuples%s delivered %r, spec %r' % (lab, got, case[key]))
+            except Exception as e:
+                problems.append('dicts/records/namedtuples%s raised %r' % (lab, e))
+    if len(set(case['hdr'])) == len(case['hdr']):      # remaining equivalences on distinct names
         check('convert', lambda: etl.convert(t, 'a', lambda v: v + 1000), case['convert'])
         check('convert(dict of fields)', lambda: etl.convert(t, {'a': lambda v: v + 1000}), case['convert'])
         # data accessors and identity maps carry every row over unchanged
@@ -241,7 +266,7 @@ def run(tier, seed):
     r2, v2 = common.validate('RowOpsTrace', bad, name='RowOpsTraceBad')
     ok = v2[1][0] != 0
     chk.binding_demo = {'corrupted': 'one output cell changed', 'verdict': list(v2[1]), 'rejected_as_expected': ok}
-    if not ok:
+    if not ok and not chk.violations:
         raise tlc.MachineryError('binding demo failed')
     chk.exhaustive = True
     chk.assumptions = ['field selection domain: names and indices 0..len(hdr)-1 (negative SELECTION indices are undocumented and not used); '
